@@ -784,7 +784,7 @@ static double get_free_energy(const double temperature, const double f,
     if (classical) {
         return KB * temperature * log(f / (KB * temperature));
     } else {
-        return KB * temperature * log(1 - exp(-f / (KB * temperature)));
+        return KB * temperature * log(-expm1(-f / (KB * temperature)));
     }
 }
 
@@ -796,9 +796,8 @@ static double get_entropy(const double temperature, const double f,
     if (classical) {
         return KB - KB * log(f / (KB * temperature));
     } else {
-        val = f / (2 * KB * temperature);
-        return 1 / (2 * temperature) * f * cosh(val) / sinh(val) -
-               KB * log(2 * sinh(val));
+        val = f / (KB * temperature);
+        return KB * (val * exp(-val) / -expm1(-val) - log(-expm1(-val)));
     }
 }
 
@@ -812,8 +811,8 @@ static double get_heat_capacity(const double temperature, const double f,
         return KB;
     } else {
         val = f / (KB * temperature);
-        val1 = exp(val);
-        val2 = (val) / (val1 - 1);
+        val1 = exp(-val);
+        val2 = (val) / expm1(-val);
         return KB * val1 * val2 * val2;
     }
 }
